@@ -146,6 +146,8 @@ BAD_INPUTS = {
     "conv_fail": None,
     "bad_transport": "SOLUTION 0-2\n Na 1\n Cl 1\nTRANSPORT\n -cells 5\n -shifts 2\n -lengths 7*1\nEND\n",
     "bad_phase": S1 + "EQUILIBRIUM_PHASES 1\n Nonexistentite 0 1\nEND\n",
+    # rows without a Number column wait in a side list until tidy_solutions; the PHASES error stops tidy_model before that
+    "spread_unnumbered": "SOLUTION_SPREAD\n -units mmol/kgw\npH\tCa\tNa\tCl\n6.2\t0.078\t0.134\t0.014\n6.8\t0.26\t0.259\t0.03\nPHASES\n Brokenite\n Xx = Yy\n log_k 0\nEND\n",
     "include_fail_mid": None,
     "include_nested_missing": None,
 }
